@@ -19,12 +19,11 @@ MapIs(list, f) == /\ Len(list) = Cardinality(DOMAIN f)
                   /\ \A i \in 1..Len(list) : list[i][1] \in DOMAIN f /\ f[list[i][1]] = list[i][2]
 ResultIs(r, want) == IF want = None THEN r.v = "refused"
                      ELSE r.v = "model" /\ MapIs(r.frame_map, want[1].frame_map) /\ MapIs(r.keyed, want[1].frame_map_with_key)
-\* "returns that frame via the extended header's ids when one is supplied and via the frame id alone otherwise": what a lookup answers
-\* when an extended header is supplied and no frame is stored under its ids is not stated (the code answers nothing; falling back to
-\* the frame id alone would be as good)
+\* "returns that frame via the extended header's ids when one is supplied and via the frame id alone otherwise": with an extended header
+\* the lookup goes by its ids and by nothing else - no frame stored under them, no answer (the literal reading; a fall-back to the frame id
+\* alone was proposed as latitude by the audit and is what the independent author of seeded change C11_I considered a violation)
 LookupsOk(e, want) == want # None => \A i \in 1..Len(e.lookups) :
-   LET q == e.lookups[i] IN
-   (q.ext = None \/ <<q.ext[1].ct, q.ext[1].ap, q.id>> \in DOMAIN want[1].frame_map_with_key) => q.res = Lookup(want[1], q.id, q.ext)
+   LET q == e.lookups[i] IN q.res = Lookup(want[1], q.id, q.ext)
 \* the result is one of the models the statement allows (FibexModel!Accept), and the lookups answer from that same model
 Load11Ok(e) == \E want \in Accept(e.model) : ResultIs(e.res, want) /\ LookupsOk(e, want)
 Load12Ok(e) == e.res.v \in {"model", "refused"}
